@@ -26,7 +26,7 @@ fn actions() -> Vec<&'static str> {
 }
 
 fn ev(kind: EventKind, paths: Vec<PathBuf>) {
-    notify::stub_inject(0, Event { kind, paths });
+    notify::stub_inject(0, Event { kind, paths, attrs: Default::default() });
 }
 
 /// perform the action on disk and deliver the notifications inotify produces for it
@@ -39,8 +39,8 @@ fn perform(root: &Path, a: &str) -> bool {
                 return false;
             }
             std::fs::write(p(t[1]), if t[0] == "garbage" { "zz" } else { t[2] }).unwrap();
-            ev(EventKind::Modify(ModifyKind::Data), vec![p(t[1])]);
-            ev(EventKind::Access(notify::AccessKind::Close), vec![p(t[1])]);
+            ev(EventKind::Modify(ModifyKind::Data(notify::event::DataChange::Any)), vec![p(t[1])]);
+            ev(EventKind::Access(notify::AccessKind::Close(notify::event::AccessMode::Write)), vec![p(t[1])]);
         }
         "create" => {
             if p(t[1]).exists() || !p(t[1]).parent().unwrap().is_dir() {
@@ -48,7 +48,7 @@ fn perform(root: &Path, a: &str) -> bool {
             }
             std::fs::write(p(t[1]), t[2]).unwrap();
             ev(EventKind::Create(CreateKind::File), vec![p(t[1])]);
-            ev(EventKind::Modify(ModifyKind::Data), vec![p(t[1])]);
+            ev(EventKind::Modify(ModifyKind::Data(notify::event::DataChange::Any)), vec![p(t[1])]);
         }
         "delete" => {
             if !p(t[1]).is_file() {
